@@ -94,6 +94,20 @@ impl Server {
     }
 }
 
+/// A simple error ends at the first CRLF, but its text quotes the request (stream ids, unknown
+/// command names): keep such a reply on one line.
+fn single_line(frame: BytesFrame) -> BytesFrame {
+    match frame {
+        BytesFrame::SimpleError { data, attributes } if data.contains(['\r', '\n']) => {
+            BytesFrame::SimpleError {
+                data: data.replace(['\r', '\n'], " ").into(),
+                attributes,
+            }
+        }
+        frame => frame,
+    }
+}
+
 pub struct Conn {
     pub cluster_ref: ActorRef<ClusterActor>,
     pub caches: Arc<HashMap<BucketId, Arc<SegmentBlockCache>>>,
@@ -157,7 +171,7 @@ impl Conn {
                                     while let Some((frame, _, _)) =
                                         decode_bytes_mut(&mut self.read).map_err(io::Error::other)?
                                     {
-                                        let response = self.handle_request(frame).await?;
+                                        let response = self.handle_request(frame).await?.map(single_line);
                                         if let Some(resp) = response {
                                             resp3::encode::complete::extend_encode(&mut self.write, &resp, false)
                                                 .map_err(io::Error::other)?;
@@ -209,7 +223,7 @@ impl Conn {
                             while let Some((frame, _, _)) =
                                 decode_bytes_mut(&mut self.read).map_err(io::Error::other)?
                             {
-                                let response = self.handle_request(frame).await?;
+                                let response = self.handle_request(frame).await?.map(single_line);
                                 if let Some(resp) = response {
                                     resp3::encode::complete::extend_encode(&mut self.write, &resp, false)
                                         .map_err(io::Error::other)?;
